@@ -426,9 +426,11 @@ class LambdaExpression(Expression):
         self.expression = expression
 
     def __str__(self) -> str:
+        # Parenthesize logical sub expressions where precedence requires it.
+        expression = BooleanExpression(self.expression.token, self.expression)
         if len(self.params) == 1:
-            return f"{self.params[0]} => {self.expression}"
-        return f"({', '.join(self.params)}) => {self.expression}"
+            return f"{self.params[0]} => {expression}"
+        return f"({', '.join(self.params)}) => {expression}"
 
     def __hash__(self) -> int:
         return hash((tuple(self.params), hash(self.expression)))
